@@ -84,6 +84,26 @@ NEUTRAL_DECLINED.update({
 })
 NEUTRAL_DECLINED['C16-n4-2'] = {
     'C16': 'payload encoders looked up in a module table'}
+_NO_HELPER = ('the policy path lookup helper is bypassed (find_file called '
+              'directly: None instead of an exception for a missing path)')
+NEUTRAL_DECLINED.update({
+    'C05-n9-2': {'C05': 'walker recursion moved into a nested closure '
+                        'indexed by depth'},
+    'C10-n9-3': {p: _NO_HELPER for p in (
+        'C03', 'C06', 'C09', 'C10', 'C11', 'C12', 'C18', 'C20')},
+    'C11-n9-3': {p: 'registered defaults collected in a local dict and '
+                    'merged with one update()' for p in (
+                        'C09', 'C11', 'C12')},
+    'C13-n9-2': {'C13': 'walker answers with the offending check object or '
+                        'None instead of a verdict'},
+})
+# refactorings that preserve the property they were written for and break
+# another one: the report of that other check is right
+NEUTRAL_BREAKS_OTHER = {
+    'C11-n9-3': {'C20': 'the batched merge of registered defaults is the '
+                        'change seeded as C20-r8-2: harmless for C11 '
+                        '(sequential), a wider lost-update window for C20'},
+}
 # known false alarms (exit 1) that are documented and not repaired: none
 NEUTRAL_KNOWN_ALARM = {}
 
@@ -180,6 +200,10 @@ def main():
                 if rc == 2 and p in NEUTRAL_DECLINED.get(name, {}):
                     print('declined neutral/%s %s (%s)' % (
                         name, p, NEUTRAL_DECLINED[name][p]))
+                    continue
+                if rc == 1 and p in NEUTRAL_BREAKS_OTHER.get(name, {}):
+                    print('breaks-another-property neutral/%s %s (%s)' % (
+                        name, p, NEUTRAL_BREAKS_OTHER[name][p]))
                     continue
                 if rc == 1 and p in NEUTRAL_KNOWN_ALARM.get(name, {}):
                     print('known-false-alarm neutral/%s %s (%s)' % (
